@@ -174,6 +174,7 @@ def exp_mp(lt, x):
         if th == 0:
             R = I
             W = fs * I
+            Wabs = abs(fs) * I
             q = [mp.mpf(0), mp.mpf(0), mp.mpf(0), mp.mpf(1)]
         else:
             R = I + (mp.sin(th) / th) * K + ((1 - mp.cos(th)) / th**2) * K2
@@ -182,12 +183,15 @@ def exp_mp(lt, x):
             A = mp.im(fz) / th
             B = (fs - mp.re(fz)) / th**2
             W = fs * I + A * K + B * K2
+            # entrywise bound of the terms W is assembled from (the entries of W itself can
+            # cancel, e.g. W = n n^T at theta = 2 pi): forward bound of t = W tau
+            Wabs = abs(fs) * I + abs(A) * K.apply(abs) + abs(B) * K2.apply(abs)
             h = mp.sin(th / 2) / th
             q = [h * p[0], h * p[1], h * p[2], mp.cos(th / 2)]
         tv = mp.matrix([mp.mpf(float(v)) for v in tau])
         t = W * tv
         return {"R": R, "W": W, "t": t, "s": s, "q": q, "dps": mp.mp.dps,
-                "absWtau": [sum(abs(W[i, j]) * abs(tv[j]) for j in range(3)) for i in range(3)]}
+                "absWtau": [sum(Wabs[i, j] * abs(tv[j]) for j in range(3)) for i in range(3)]}
     finally:
         mp.mp.dps = old
 
